@@ -889,6 +889,76 @@ def h_foreign_abort(where: int, nblobs: int, kind: str) -> None:
     reached()
 
 
+def h_foreign_finish(where: int, how: int, nblobs: int, kind: str) -> None:
+    """A tpc_finish that is refused - called with a transaction other than the one being committed (after the
+    stores or after the vote), or with a callback that raises before the commit point - followed by the abort of
+    the transaction in progress: no blob file of that transaction remains, nothing of it can be loaded, and the
+    next blob commit works."""
+    k = choose(where, 2)
+    hw = choose(how, 2)
+    nb = 1 + choose(nblobs, 2)
+    assume(not (hw == 1 and k == 0))      # a finish of the real transaction needs the vote first
+    with untraced():
+        from ZODB.Connection import TransactionMetaData
+        from ZODB.POSException import StorageTransactionError, POSKeyError
+        from ZODB.utils import z64
+        w = BlobWorld(kind)
+        try:
+            s = w.s
+            before, _ = w.blob_files()
+            last = s.lastTransaction()
+            t = TransactionMetaData(b'u', b'blob commit in progress')
+            other = TransactionMetaData(b'u', b'blob commit in progress')
+            s.tpc_begin(t)
+            rec = w.s.load(w.root['plain']._p_oid)[0]
+            oids = []
+            for i in range(nb):
+                o = s.new_oid()
+                fn = os.path.join(s.temporaryDirectory(), 'refused-%d.tmp' % i)
+                with open(fn, 'wb') as f:
+                    f.write(b'blob-bytes-%d' % i)
+                s.storeBlob(o, z64, rec, fn, '', t)
+                oids.append(o)
+            if k == 1:
+                s.tpc_vote(t)
+            if hw == 0:
+                try:
+                    s.tpc_finish(other)
+                    fail('tpc_finish with a foreign transaction was accepted')
+                except StorageTransactionError:
+                    pass
+            else:
+                class Boom(Exception):
+                    pass
+
+                def cb(tid):
+                    raise Boom('callback failed before the commit point')
+                try:
+                    s.tpc_finish(t, cb)
+                    fail('tpc_finish swallowed the exception of its callback')
+                except Boom:
+                    pass
+            s.tpc_abort(t)
+            check(s.lastTransaction() == last, 'a refused tpc_finish followed by the abort committed something')
+            files, leftovers = w.blob_files()
+            check(files == before, 'blob files of an aborted transaction remain in the blob directory after a refused tpc_finish',
+                  k, hw, sorted(set(files) - set(before)))
+            check(not leftovers, 'temporary files left in the blob directory', leftovers)
+            for o in oids:
+                try:
+                    s.load(o, '')
+                    fail('object of the aborted transaction can be loaded')
+                except POSKeyError:
+                    pass
+            # the storage is usable: an ordinary blob commit through the connection
+            w.new(False)
+            w.commit()
+            w.check_disk('after the follow-up commit')
+        finally:
+            w.destroy()
+    reached()
+
+
 def h_undo_fault(f: int, w2: bool, kind: str) -> None:
     """Blob written in two (or three) transactions, then an undo of the newest one during which the f-th
     file-system operation of the blob code (rename, remove, link, makedirs, chmod, file copy cut after one byte)
@@ -972,6 +1042,13 @@ HARNESSES = [
             symbolic='point of the foreign call (after begin / after the stores / after the vote), number of blobs (1-2)',
             bounds='storage-level two-phase commit of 1-2 new blobs', oracle='loadBlob bytes',
             code=['BlobStorage.tpc_abort', 'BlobStorageMixin._blob_tpc_abort/storeBlob', 'BaseStorage.tpc_abort', 'FileStorage._abort'],
+            quick=dict(timeout=60, shards=shards(kind=['file', 'mapping', 'proxy'])), thorough=dict(timeout=120, shards=shards(kind=['file', 'mapping', 'proxy']))),
+    Harness('foreign_finish', h_foreign_finish,
+            decides='a refused tpc_finish (foreign transaction after the stores / after the vote; callback raising before the commit point) '
+                    'followed by the abort leaves no blob file of the transaction, and the next blob commit works',
+            symbolic='point (after the stores / after the vote), kind of refusal (2), number of blobs (1-2)',
+            bounds='storage-level two-phase commit of 1-2 new blobs', oracle='blob directory listing before/after',
+            code=['BlobStorage.tpc_finish', 'BlobStorageMixin._blob_tpc_finish/_blob_tpc_abort', 'FileStorage.tpc_finish/_abort'],
             quick=dict(timeout=60, shards=shards(kind=['file', 'mapping', 'proxy'])), thorough=dict(timeout=120, shards=shards(kind=['file', 'mapping', 'proxy']))),
     Harness('undo_fault', h_undo_fault,
             decides='an undo of a blob transaction during which any one file-system operation of the blob code fails (incl. a blob '
